@@ -94,7 +94,62 @@ def merge_all(spec, accs):
   return first
 
 
+def fss_worker(job):
+  """FixedSizeSample: reservoirs are constructed directly (size = min(max_size, reviewed)), the RNG is a
+  nondeterministic stub (every draw a fresh symbolic value in its documented range); merged in shard order."""
+  _, max_size, shards, tier, seed = job
+  from ml_metrics._src.aggregates import rolling_stats as rs
+  from checks import c11
+  mods = metric_specs._mods(*metric_specs.ROLL)
+
+  def scn(c):
+    c11.StubRng.n = 0
+    with symx.patched(*mods):
+      import types as _t
+      rs.np.random = _t.SimpleNamespace(default_rng=lambda seed=None: c11.StubRng())
+      accs, inputs, k = [], [], 0
+      for reviewed in shards:
+        held = min(max_size, reviewed)
+        vals = [c.real(f'x{k + j}') for j in range(held)]
+        k += held
+        inputs += vals
+        accs.append(rs.FixedSizeSample(max_size=max_size, seed=0, _reservoir=list(vals), _num_samples_reviewed=reviewed))
+      first = accs[0]
+      for a in accs[1:]:
+        first.merge(a)
+      res = first.result()
+    total = sum(shards)
+    member = all(any(r is x for x in inputs) for r in res)
+    distinct = len({id(r) for r in res}) == len(res)
+    return [('size==min(max_size,N)', z3b(len(res) == min(max_size, total))), ('membership: every sample is one of the inputs, none twice', z3b(member and distinct)),
+            ('reviewed-count==N', z3b(first.num_samples_reviewed == total))]
+  res = symx.explore(scn, max_paths=20000, timeout_s=240 if tier == 'quick' else 2000)
+  failed = []
+  for claim, values, prefix in res.failed[:2]:
+    # replay on the real class with the real numpy RNG: the three facts do not depend on the RNG draws
+    accs, k = [], 0
+    for reviewed in shards:
+      held = min(max_size, reviewed)
+      accs.append(rs.FixedSizeSample(max_size=max_size, seed=0, _reservoir=[float(k + j) for j in range(held)], _num_samples_reviewed=reviewed))
+      k += held
+    for a in accs[1:]:
+      accs[0].merge(a)
+    r = accs[0].result()
+    bad = len(r) != min(max_size, sum(shards)) or len(set(r)) != len(r) or not set(r) <= set(map(float, range(k))) or accs[0].num_samples_reviewed != sum(shards)
+    failed.append({'claim': claim, 'values': values, 'reproduced': bool(bad), 'detail': f'real class, real RNG: reservoir={r} reviewed={accs[0].num_samples_reviewed}'})
+  return {'job': ['FixedSizeSample', max_size, list(shards)], 'paths': res.paths, 'cut': res.cut, 'cut_reasons': res.cut_reasons, 'claims': res.claims,
+          'discharged': res.discharged, 'failed': failed, 'unknown': res.unknown, 'stats': res.stats, 'witness': res.paths > 0,
+          'samples': [{'metric': 'FixedSizeSample', 'max_size': max_size, 'reviewed counts per shard': list(shards), 'paths': res.paths}]}
+
+
+def z3b(b):
+  import z3
+  return z3.BoolVal(bool(b))
+
+
 def worker(job):
+  if job[0] == 'FixedSizeSample':
+    return fss_worker(job)
   name, n, comp, tier, seed = job
   spec = _spec(name, tier)
   mods = metric_specs.modules_of(spec)
@@ -174,7 +229,7 @@ def run(tier):
   rep.bounds(rows=n, max_shards=3, compositions=len(compositions(n, 3)), metrics=[s.name for s in specs],
              label_domain='{0,1,2}', note='every composition of the rows into <=3 shards x batches, incl. empty shards; NaN pattern decided per element (2^n case split) for NaN-capable metrics')
   rep.outside('floating-point rounding (reals are exact)', '+-inf intermediate values (paths cut and counted in paths_cut_outside_model)',
-              'text metrics over arbitrary strings (covered only for texts of <=3 words over a 3-word vocabulary, words chosen by symbolic ints that are concretised per path)', 'FixedSizeSample (RNG driven control flow)',
+              'text metrics over arbitrary strings (covered only for texts of <=3 words over a 3-word vocabulary, words chosen by symbolic ints that are concretised per path)', 'FixedSizeSample.add (Algorithm L needs exp/log/floor of RNG draws); its merge IS covered with directly constructed reservoirs and a nondeterministic RNG stub',
               'row counts beyond the bound', 'empty batches passed to add() (documented as non-vacant input)')
   rep.assume('numpy facade (vf/symx.py NpFacade) is equivalent to numpy on the calls made - validated per job against real numpy on random constants (translator_validation)',
              'z3 sound for QF_NRA/LIA', 'sqrt/log are uninterpreted with sign/square axioms')
@@ -187,6 +242,9 @@ def run(tier):
               cl._multiclass_confusion_matrix, cl._topk_confusion_matrix, cl.ConfusionMatrixAggFn.update_state, cl.ConfusionMatrixAggFn.merge_states,
               cl.SamplewiseClassification.add, cl.SamplewiseClassification.merge, rt.TopKRetrieval.add, rt.TopKRetrieval.merge, rt.TopKRetrieval.result,
               mu.safe_divide, mu.nanadd, mu.where)
+  if not only or only in 'FixedSizeSample':
+    for max_size, shards in ((3, (2, 2)), (3, (2, 2, 1)), (3, (5, 1)), (2, (0, 2)), (3, (3, 4)), (3, (1, 0, 1))):
+      jobs.append(('FixedSizeSample', max_size, shards, tier, common.seed()))
   results = srun.run_jobs(worker, jobs)
   srun.absorb(rep, results, classify)
   return rep.finish()
